@@ -1762,6 +1762,14 @@ theorem advance_realtime (hist : Int) (fd : Nat) (hfd : 0 < fd) (ts : Int) :
   rw [Int.mul_ediv_cancel _ (by omega : (fd : Int) ≠ 0)]
   omega
 
+/-- the historical clock is affine over the whole wall-clock axis: `k` ticks of historical time per
+`fd` wall-clock units, before `basis` (negative `w`: the start point is scheduled in the future and
+the clock is still earlier than `historical`) as well as after it -- it is not clamped at the start point -/
+theorem advance_affine (hist : Int) (fd : Nat) (hfd : 0 < fd) (k : Int) :
+    advance hist fd (k * fd) = hist + k := by
+  unfold advance
+  rw [Int.mul_ediv_cancel _ (by omega : (fd : Int) ≠ 0)]
+
 /-- the historical clock does not go back when the wall clock does not -/
 theorem advance_mono (hist : Int) (fd : Nat) (w w' : Int) (h : w ≤ w') :
     advance hist fd w ≤ advance hist fd w' := by
